@@ -33,7 +33,8 @@ timezone offset in minutes.
 `opq tag rep`: a value of a type whose identity is decided by a canonical representative computed
 by the harness: tag 1 = xs:QName (`rep` = code points of `{namespace}local`), 2 = a duration
 (`[months, microseconds]`), 3 = xs:hexBinary, 4 = xs:base64Binary (`rep` = the octets).
-`unt s`: an xs:untypedAtomic with the string `s`. -/
+`unt s`: an xs:untypedAtomic with the string `s` (kept as it is by the constructor, map:entry and
+map:put alike). -/
 inductive Key where
   | int (v : Int)
   | dec (v : Rat)
@@ -564,15 +565,9 @@ inductive Op where
   | call2 (t k1 k2 : Nat)                        -- `$t($k1)($k2)`
   deriving Inhabited
 
-/-- the map *constructor* takes its keys through `get_atomized_operand`, which turns an
-xs:untypedAtomic into an xs:string (maps.py `evaluate`); map:entry / map:put keep the value -/
-def ctorKey : Key → Key
-  | .unt s => .str s
-  | k => k
-
 /-- literal keys of an operation (what the clash predicate of the findings F15d/F15f looks at) -/
 def opKeys : Op → List Key
-  | .mCtor es => es.map fun e => ctorKey e.1
+  | .mCtor es => es.map (·.1)
   | .mPut _ k _ | .mGet _ k | .mContains _ k | .mEntry k _ | .mFind _ k => [k]
   | .mRemove _ ks => ks
   | .lookup _ (some ks) => ks
@@ -735,7 +730,7 @@ def evalOp (d : Dialect) (st : St) : Op → Except Err (Store × Seq)
   | .seq parts => .ok (st.store, parts.flatMap fun
       | .lit k => [.atom k]
       | .var i => st.var i)
-  | .mCtor es => liftAlloc st.store ((d.mapCtor (es.map fun (k, i) => (ctorKey k, st.var i))).map .map)
+  | .mCtor es => liftAlloc st.store ((d.mapCtor (es.map fun (k, i) => (k, st.var i))).map .map)
   | .mPut m k v => do
       let es ← asMap st.store (st.var m)
       liftAlloc st.store ((d.mapPut es k (st.var v)).map .map)
